@@ -149,7 +149,17 @@ class C11(Check):
             others = sorted({e[1] for e in spec['edges']} - {tgt}) or [tgt]
             spec['edges'].append([src, rng.choice(others), {'weight': rng.choice([0.75, -1.25, 1.5]), 'delay': d,
                                                            'spread': d / math.sqrt(rng.choice([2.0, 3.0, 1.0]))}])
-        if rng.random() < 0.2:
+        if stratum != 'S-big' and rng.random() < 0.15:
+            # delay and spread of every kernel edge typed as numpy float32 scalars (values exactly representable in single
+            # precision, ratio (d/s)^2 well away from the .5 rounding boundaries)
+            import struct
+            f32 = lambda x: struct.unpack('f', struct.pack('f', x))[0]
+            for e in spec['edges']:
+                if e[2].get('delay') and e[2].get('spread') and e[2]['delay'] > 1.5 * dt:
+                    d_ = f32(float(e[2]['delay']))
+                    e[2].update({'delay': d_, 'spread': f32(d_ / math.sqrt(rng.choice([2.0, 3.0, 4.0]) + 0.2)), 'f32': True})
+            spec['build'] = 'python'
+        elif rng.random() < 0.2:
             # delays typed as whole numbers (2 instead of 2.0)
             for e in spec['edges']:
                 if e[2].get('delay') and float(e[2]['delay']).is_integer():
@@ -301,6 +311,10 @@ class C11(Check):
             sol = solve_ivp(f, (0.0, T), y0, method=cfg['method'], rtol=1e-9, atol=1e-11, first_step=dt, t_eval=idx)
             rows = [dict(zip(order, sol.y[:, j])) for j in range(sol.y.shape[1])]
             tol = 1e-6
+        if any(e_[2].get('f32') for e_ in models.flatten(spec)[1]) if not pop else False:
+            # single-precision delays: the kernel rate n/d may be formed in single precision (relative 6e-8) - the law is
+            # the kernel (order, gain, mean), not the last digits of a rate the user gave in float32
+            tol = max(tol, 2e-5)
         compared = 0
         for i, n in enumerate(names):
             g = np.asarray(R[f'o{i}'].values, dtype=float)
@@ -395,7 +409,22 @@ class C11(Check):
         if spec.get('build') == 'yaml':
             yield with_key(trace, ['spec', 'build'], 'python')
         from checks.c03 import shrink_spec
+
+        def in_domain(sp):
+            # a kernel with a mean delay of at most one step is only generated next to a longer one on the same source
+            # variable (alone it is neglected by the implementation, by design)
+            es = models.flatten(sp)[1]
+            for s_, _, a_ in es:
+                if a_.get('delay') and a_['delay'] <= cfg['dt'] * (1 + 1e-9):
+                    if not any(s2 == s_ and (a2.get('delay') or 0) > cfg['dt'] * (1 + 1e-9) for s2, _, a2 in es):
+                        return False
+            return True
         for t in shrink_spec({'spec': spec, 'cfg': {'input': None}}):
+            try:
+                if not in_domain(t['spec']):
+                    continue
+            except Exception:
+                continue
             t2 = copy.deepcopy(trace)
             t2['spec'] = t['spec']
             yield t2
